@@ -1,13 +1,14 @@
 SPECIFICATION Spec
 CONSTANTS
-  Catalogue <- CatFull
+  Catalogue <- CatBig
   DiskC = "A"
   DiskR = "A"
-  Feat = {"msg", "poll", "health", "usage", "stop"}
-  Feeds <- FeedsTwo
-  MaxCum = 2
-  Steps = {1, 2}
-  Outcomes = {"ok", "fail", "pendok", "hold"}
+  Feat = {"msg", "poll", "stop"}
+  Feeds <- FeedsOne
+  MaxCum = 0
+  Steps = {1}
+  Outcomes = {}
+  ZeroReports = "keys"
   RetryFailed = FALSE
   Faithful = FALSE
 INVARIANTS TypeOK AppliedIsInForce FailedIsRefused EffectiveInForce Conservation NoDoubleCount StopUnhealthy StopEnds
